@@ -627,7 +627,9 @@ fn extract(matches: &ArgMatches) -> Result<(), MlarError> {
         ));
         let mut export: HashMap<&String, FileWriter> = HashMap::new();
         for fname in &iter {
-            if let Some((_file, path)) = create_file(&output_dir, fname)? {
+            // A member whose destination cannot be created (the reason has been
+            // printed) is skipped: it must not prevent the extraction of the others
+            if let Ok(Some((_file, path))) = create_file(&output_dir, fname) {
                 export.insert(
                     fname,
                     FileWriter {
@@ -660,7 +662,8 @@ fn extract(matches: &ArgMatches) -> Result<(), MlarError> {
             }
             Ok(Some(subfile)) => subfile,
         };
-        let Some((mut extracted_file, _path)) = create_file(&output_dir, &fname)? else {
+        // Same here: a destination which cannot be created only concerns this member
+        let Ok(Some((mut extracted_file, _path))) = create_file(&output_dir, &fname) else {
             continue;
         };
 
